@@ -600,7 +600,7 @@ pub fn check_point_as<T: Sc>(
                     }
                     let got = resid[s * inst.n + i].to64();
                     let d = (got - acc).abs() / mag.max(1.0);
-                    worst = worst.max(d);
+                    worst = nmax(worst, d);
                 }
             }
         } else {
